@@ -560,7 +560,13 @@ class Sim:
             # quiescent point.
             tainted = self.tainted
             self.tainted = False
-            self._send(self.daemon_conn, "g")
+            late = getattr(self, "late_signal", None)
+            if late:
+                self.late_signal = None
+                self.emit("signal", sig=late, after_select=True)
+                self._send(self.daemon_conn, "g sig=%d" % int(getattr(signal, "SIG" + late)))
+            else:
+                self._send(self.daemon_conn, "g")
             ex = self._next_daemon_select("exit")
             self.emit("selret", ret=ex.get("ret"), err=ex.get("err"), T=ent.get("T"))
             self.prev_idle = (ex.get("ret") == 0 and ent.get("T", 0) > 0 and not tainted)
@@ -675,6 +681,11 @@ class Sim:
             # the select that follows is a new one, not the interrupted one: if it asks for a positive timeout and nothing is
             # readable, the daemon really goes to sleep for that long (see run_until_quiescent)
             self.after_signal = True
+
+    def signal_late(self, name):
+        """(scenario) the signal reaches the daemon just after its next select has returned, i.e. while it is NOT inside
+        select: no EINTR, only the handler's flag (seed c15-s8)"""
+        self.late_signal = name
 
     def advance(self, dt):
         self.set_time(self.clock.now() + int(dt))
